@@ -562,7 +562,23 @@ where
         make_partial_derisval!("=="),
         make_partial_derisval!("<="),
         make_partial_derisval!(">="),
-        make_partial_per_operand!("if"),
+        // the condition selects the branch of the derivative as it selects the branch of the value,
+        // it is not differentiated itself (a condition that is a constant or a boolean variable has
+        // the derivative zero which would always select the else-branch)
+        PartialDerivative {
+            repr: "if",
+            bin_op: Some(
+                |f: ValueDerivative<T, OF, LM>,
+                 g: ValueDerivative<T, OF, LM>|
+                 -> ExResult<ValueDerivative<T, OF, LM>> {
+                    Ok(ValueDerivative {
+                        val: f.val.operate_bin(g.val.clone(), "if")?,
+                        der: f.der.operate_bin(g.val, "if")?,
+                    })
+                },
+            ),
+            unary_outer_op: None,
+        },
         make_partial_per_operand!("else"),
         PartialDerivative {
             repr: "/",
